@@ -607,6 +607,10 @@ func init() {
 		reg("BridgeHook."+m, "the configured bridge hook may fail; it touches only channel-permission state (perm.admin), never ophost or bank state", func(c *CallCtx) []Outcome {
 			h := handleOf(c.args[1])
 			c.st.hookCalls = append(c.st.hookCalls, HookCall{Name: m, Bridge: c.t(2), Cfg: c.tv(3)})
+			if c.st.hookCount == "" {
+				c.st.hookCount = "0"
+			}
+			c.st.hookCount = fmt.Sprintf("(+ %s 1)", c.st.hookCount)
 			return c.forkFail(func(st *State) []Value {
 				c.x.ghostGet(st, h, "perm.admin", permAdminSort, ghostInfo{Arr: true, Opt: true, Sort: permAdminSort})
 				c.x.ghostSet(st, h, "perm.admin", c.x.enc.FreshConst("perm.admin@hook", permAdminSort))
